@@ -58,6 +58,7 @@ func checkRuntime(c *Ctx, prop string) {
 		}
 	}
 	t0 := time.Now()
+	afterBad := 0
 	for i := 0; i < n; i++ {
 		cfg := rtConfig{
 			nsrc: 1 + rng.Intn(3), nclients: 2 + rng.Intn(4), steps: 60 + rng.Intn(140),
@@ -67,7 +68,7 @@ func checkRuntime(c *Ctx, prop string) {
 		if prop == "C09" {
 			cfg.delay = rng.Chance(85)
 		}
-		if (prop == "C08" || prop == "C06") && i%40 == 7 {
+		if (prop == "C08" || prop == "C06") && i%40 == 7 && afterBad == 0 {
 			// saturation: a callback that never returns, then enough installs to fill the callback queue
 			// (capacity from the regenerated facts), then more updates incl. rejected ones: the monitor must
 			// keep installing and must never wait for the queue
@@ -128,7 +129,12 @@ func checkRuntime(c *Ctx, prop string) {
 			res.Add(Finding{Kind: "violation", What: v, Case: full})
 		}
 		if res.Bad() > 0 && !c.Search {
-			break
+			// a disagreement alone is a broken tie; look on (a bounded number of further schedules, continued on the
+			// implementation alone after their first mismatch) for a schedule in which the property's own oracle fails
+			if hasViolation(res) || afterBad >= 150 {
+				break
+			}
+			afterBad++
 		}
 		if c.Search && (hasViolation(res) || time.Since(t0) > searchBudget(c)) {
 			break
